@@ -1,0 +1,58 @@
+//go:build verif
+
+package kernel
+
+// Verification hooks for the membership views (C09, C10, C11): a constructor for a
+// Node around a given store (the way kernel/removal_consensus_test.go builds one,
+// without starting any loop) and thin exported wrappers of unexported views.
+
+import (
+	"github.com/MixinNetwork/mixin/crypto"
+	"github.com/MixinNetwork/mixin/storage"
+	"github.com/dgraph-io/ristretto/v2"
+)
+
+func VerifNewNode(epoch uint64, networkId, self crypto.Hash, store storage.Store, cache *ristretto.Cache[[]byte, any], genesis []crypto.Hash) *Node {
+	node := &Node{
+		Epoch:           epoch,
+		networkId:       networkId,
+		IdForNetwork:    self,
+		persistStore:    store,
+		cacheStore:      cache,
+		chains:          &chainsMap{m: make(map[crypto.Hash]*Chain)},
+		genesisNodesMap: make(map[crypto.Hash]bool),
+	}
+	for _, id := range genesis {
+		node.genesisNodesMap[id] = true
+		node.genesisNodes = append(node.genesisNodes, id)
+	}
+	return node
+}
+
+// VerifChain builds a Chain the way loadState leaves it before any round exists
+// (State nil, ConsensusInfo from loadIdentity) or, with hasState, after.
+func (node *Node) VerifChain(id crypto.Hash, hasState bool) *Chain {
+	chain := &Chain{node: node, ChainId: id, persistStore: node.persistStore}
+	if hasState {
+		chain.State = &ChainState{RoundLinks: make(map[crypto.Hash]uint64)}
+		return chain
+	}
+	chain.ConsensusInfo = chain.loadIdentity()
+	return chain
+}
+
+func (node *Node) VerifAllNodesSortedWithState() []*CNode { return node.allNodesSortedWithState }
+
+func (node *Node) VerifNodeSequenceWithoutState(threshold uint64, acceptedOnly bool) []*CNode {
+	return node.nodeSequenceWithoutState(threshold, acceptedOnly)
+}
+
+func (node *Node) VerifRemovingOrSlashingNodeAt(timestamp uint64) *CNode {
+	return node.removingOrSlashingNodeAt(timestamp)
+}
+
+func (node *Node) VerifElectSnapshotNode(operation byte, now uint64) crypto.Hash {
+	return node.electSnapshotNode(operation, now)
+}
+
+func (node *Node) VerifSetSigner(pub crypto.Key) { node.Signer.PublicSpendKey = pub }
